@@ -61,6 +61,49 @@ MOS = [
 ]
 
 
+def capacity_decisions(F):
+    """The four places where a size is compared with its bound, as DECIDES obligations: whenever the structure is at (or
+    above) its bound the evicting / draining call is reached before the new entry goes in — for every value of the size and
+    the bound.  (Evicting earlier than necessary would not break the property and is not demanded.)"""
+    from vlib import mirdec as MD
+    out = []
+    ci = field_index("vector_cache.rs", "VectorCache", "capacity")
+    qi = field_index("query_hash_cache.rs", "QueryHashCache", "capacity")
+    hi = field_index("tiered_engine.rs", "TieredEngineConfig", "hot_tier_hard_limit")
+    mi = field_index("semantic_adapter.rs", "SemanticConfig", "max_cached_embeddings")
+    if None in (ci, qi, hi, mi):
+        return [Result("inconclusive", "capacity fields not found: %r" % ((ci, qi, hi, mi),))]
+    # document cache
+    atoms = [("ent", r"^discr:call HashMap::<u64, (vector_cache::)?CachedVector>::entry$"), ("len", r"^call HashMap::<u64, (vector_cache::)?CachedVector>::len$"),
+             ("cap", r"^\(\(\*\{arg\(_1: &VectorCache\)\}\)\.%d: usize\)$" % ci)]
+    oc = {"evict": call(r"= LruIndex::<u64>::pop_lru\(", name="lru.pop_lru()"), "insert_new": call(r"= HashMap::<u64, (vector_cache::)?CachedVector>::insert\(", name="cache.insert(new entry)")}
+    out += MD.decides(F, V + "insert", "entry", oc, atoms, {"evict": ("<=", "(and (= ent 1) (>= len cap))"), "insert_new": ("=>", "(and (= ent 1) (< len cap))")},
+                      what="VectorCache::insert: a new key at len >= capacity evicts first; a new entry goes in without eviction only below capacity")
+    # query-result cache (region: the key is not cached yet)
+    atoms = [("len", r"^call HashMap::<(query_hash_cache::)?QueryCacheKey, (query_hash_cache::)?CachedQueryResult>::len$"), ("cap", r"^\(\(\*\{arg\(_1: &QueryHashCache\)\}\)\.%d: usize\)$" % qi)]
+    start = Arm(r"^discr\(call HashMap::<(query_hash_cache::)?QueryCacheKey, (query_hash_cache::)?CachedQueryResult>::get::<", {"0"}, name="key not cached yet")
+    oc = {"evict": call(r"= LruIndex::<(query_hash_cache::)?QueryCacheKey>::pop_lru\(", name="lru.pop_lru()"), "insert_new": call(r"= LruIndex::<(query_hash_cache::)?QueryCacheKey>::insert_new\(", name="lru.insert_new(key)")}
+    out += MD.decides(F, Q + "insert_with_k_scoped_internal", start, oc, atoms, {"evict": ("<=", "(>= len cap)"), "insert_new": ("=>", "(< len cap)")},
+                      what="QueryHashCache::insert: a new key at len >= capacity evicts first")
+    # semantic embedding cache
+    atoms = [("len", r"^call IndexMap::<u64, Vec<f32>>::len$"), ("cap", r"SemanticConfig\)\.%d: usize\)$" % mi)]
+    oc = {"evict": call(r"= IndexMap::<u64, Vec<f32>>::shift_remove_index\(", name="entries.shift_remove_index(0)"), "insert_new": call(r"= IndexMap::<u64, Vec<f32>>::insert\(", name="entries.insert")}
+    start = call(r"= IndexMap::<u64, Vec<f32>>::len\(", name="entries.len()")
+    out += MD.decides(F, "semantic_adapter::SemanticAdapter::cache_embedding", start, oc, atoms, {"evict": ("<=", "(>= len cap)"), "insert_new": ("=>", "(< len cap)")},
+                      what="SemanticAdapter::cache_embedding: at len >= max_cached_embeddings the oldest embedding is removed first")
+    # recent-write tier hard limit
+    atoms = [("len", r"^call HotTier::len$"), ("cap", r"TieredEngineConfig\)\.%d: usize\)$" % hi)]
+    oc = {"drain": call(r"= TieredEngine::emergency_flush_hot_tier\(", name="emergency_flush_hot_tier()"), "hot_insert": call(r"= HotTier::insert_with_coherence\(", name="hot_tier.insert_with_coherence")}
+    out += MD.decides(F, T + "insert", "entry", oc, atoms, {"drain": ("<=", "(>= len cap)"), "hot_insert": ("=>", "(< len cap)")},
+                      what="TieredEngine::insert: at hot_tier.len() >= hot_tier_hard_limit the emergency drain runs before the hot insert")
+    return out
+
+
+MOS.append(MO("O20.7/capacity_decisions", "document cache, query-result cache, semantic embedding cache, recent-write tier: whenever size >= bound the evicting / draining call is reached before the new entry goes in, and a new "
+              "entry goes in without it only when size < bound — proved for all values of size and bound (DECIDES)", capacity_decisions,
+              functions=[("vector_cache.rs", "insert"), ("query_hash_cache.rs", "insert_with_k_scoped_internal"), ("semantic_adapter.rs", "cache_embedding"), ("tiered_engine.rs", "insert")]))
+
+
 def prepare_lru_overlay(o):
     """cfg(kani): lru_index.rs takes its HashMap from the finite-map model crate::verif_map (DESIGN 6.2)."""
     ok = o.replace_once("lru_index.rs", "use std::collections::HashMap;",
